@@ -315,7 +315,15 @@ sqf::runtime::runtime::result sqf::runtime::runtime::execute(sqf::runtime::runti
         {
             m_is_exit_requested = false;
             m_is_halt_requested = false;
-            auto scopeNum = m_context_active->frames_size() - 1;
+            if (m_contexts.empty())
+            { // nothing is loaded: there is no scope to leave
+                res = result::empty;
+            }
+            else if (!m_context_active)
+            { // nothing got executed yet: continue with what execute_do is going to pick
+                m_context_active = m_contexts.front();
+            }
+            auto scopeNum = m_context_active && !m_context_active->empty() ? m_context_active->frames_size() - 1 : 0;
             m_state = state::running;
             while (!m_is_exit_requested && !m_is_halt_requested && !m_contexts.empty())
             {
@@ -376,6 +384,10 @@ sqf::runtime::runtime::result sqf::runtime::runtime::execute(sqf::runtime::runti
 #else
             m_run_timestamp = std::chrono::system_clock::now();
 #endif // SQFVM_RUNTIME_VERIF
+            if (m_contexts.empty())
+            { // nothing is loaded: the run is over before it began
+                res = result::empty;
+            }
             while (!m_contexts.empty())
             {
                 for (size_t i = 0; i < m_contexts.size(); i++)
@@ -560,9 +572,17 @@ sqf::runtime::runtime::result sqf::runtime::runtime::execute(sqf::runtime::runti
             bool success;
             m_state = state::running;
             std::optional<diagnostics::diag_info> dinf;
+            if (m_contexts.empty())
+            { // nothing is loaded: there is no line to step over
+                res = result::empty;
+            }
+            else if (!m_context_active)
+            { // nothing got executed yet: continue with what execute_do is going to pick
+                m_context_active = m_contexts.front();
+            }
             while (!m_is_exit_requested && !m_is_halt_requested && !m_contexts.empty())
             {
-                if (!dinf.has_value())
+                if (!dinf.has_value() && !m_context_active->empty())
                 {
                     auto next_inst = m_context_active->current_frame().peek(success);
                     if (success)
@@ -577,11 +597,11 @@ sqf::runtime::runtime::result sqf::runtime::runtime::execute(sqf::runtime::runti
                 {
                     break;
                 }
-                if (dinf.has_value())
+                if (dinf.has_value() && !m_context_active->empty())
                 {
                     auto next_inst = m_context_active->current_frame().peek(success);
-                    if (success && dinf.value() != (*next_inst)->diag_info())
-                    {
+                    if (success && (dinf->line != (*next_inst)->diag_info().line || dinf->path.physical != (*next_inst)->diag_info().path.physical))
+                    { // the next instruction belongs to another line
                         break;
                     }
                 }
